@@ -605,6 +605,21 @@ def _date_rule(ctx):
             if acc != set(range(1, nd + 1)):
                 msgs.append('year %d: accepts days %s, calendar says 1..%d' % (y, _rng(acc), nd))
         yield Ob(key, not msgs, where, '; '.join(msgs[:2]), detail={'evaluated': 400})
+    # a 12-character value carries a time: it is checked whatever the month, and its verdict decides
+    def rejected_with_time(m, time_ok):
+        env0 = dict(MODC)
+        env0.update({'year': 2001, 'month': m, 'day': 1, 'val': '200101012500', 'len(val)': 12})
+        f2 = dict(funcs)
+        f2['is_valid_time'] = lambda *a_: time_ok
+        try:
+            vis = explore(g, env0, funcs=f2, start=start, unknown='stop', on_unknown=_unknown)
+        except RuntimeError as e:
+            raise AnalysisError('is_valid_date: %s' % e)
+        return bool(vis & rejecting)
+    bad_t = [m for m in range(1, 13) if not rejected_with_time(m, False) or rejected_with_time(m, True)]
+    yield Ob('validation:is_valid_date the time part of a 12-character value is checked in every month', not bad_t, where,
+             '' if not bad_t else 'in month %02d a valid date followed by an invalid time (..2500) is %s' % (
+                 bad_t[0], 'accepted' if not rejected_with_time(bad_t[0], False) else 'rejected even when the time is valid'))
     bad = []
     for y in range(1800, 10000):
         want_leap = (y % 4 == 0 and y % 100 != 0) or y % 400 == 0
